@@ -1,7 +1,7 @@
 """C08 Array inputs are handled elementwise and keep their shape; extra arguments are forwarded."""
 from ..srcmodel import AnalysisError
 from ..ndarr import Arr, InterpRaise
-from ..dv import DV, tags_of
+from ..dv import DV, tags_of, DataDependentInt
 from ..dvrun import explore, bicomplex_aware
 
 # whole-array predicates (control dependence on more than one element) that are accepted, with the reason
@@ -154,9 +154,19 @@ def one(ctx, core, shape, method, n, order, full_output, rule_as=None):
         del s.fcalls[:]
         res = d(x, marker, a=kwmarker)
         return res, list(s.fcalls)
-    ex = explore(ctx.repo, body, pinned={'(np.abs(step) > 0).all()': True})
     construct = 'core.Derivative.__call__'
     where = core.relpath
+    try:
+        ex = explore(ctx.repo, body, pinned={'(np.abs(step) > 0).all()': True})
+    except DataDependentInt as exc:
+        cols = sorted({t for t in exc.tags if t[0] == 'x'} | {t for t in exc.tags if '-call' in str(t[0])})
+        if len([t for t in cols if t[0] == 'x']) > 1 or any('-call' in str(t[0]) for t in cols):
+            rep.violation(rid('R-COLSEP'), construct, where, {'data_dependent_integer': str(exc)[:200], 'depends_on': [str(t) for t in cols[:4]]},
+                          'no index / slice bound computed from several elements steers the computation of all of them', label,
+                          key='control data dependent integer')
+        else:
+            rep.undecided(rid('R-COLSEP'), construct, exc, label)
+        return
     size = 1
     for sdim in shape:
         size *= sdim
